@@ -163,6 +163,9 @@ func (sp *Specs) parseFile(repo, fn string) error {
 				key = canonFuncKey(pkg, name)
 			case "iface":
 				key = "iface:" + pkg + "." + name
+				if strings.Count(name, ".") >= 2 {
+					key = "iface:" + name // an interface of another package, fully qualified (io.Reader.Read)
+				}
 			case "funcval":
 				key = "funcval:" + canonFuncKey(pkg, name)
 			case "extern":
